@@ -224,8 +224,8 @@ class LDAWrapper(LinearSolver):
                 bnrm0 = np.linalg.norm(badd)
                 for x, b in zip(x_data, b_data):
                     beta = badd @ b.conj() / (b.conj() @ b)
-                    badd -= beta * b
-                    xadd -= beta * x
+                    badd = badd - beta * b  # Not in-place, as the stored vectors may be complex
+                    xadd = xadd - beta * x
                 bnrm = np.linalg.norm(badd)
                 if not np.isfinite(bnrm) or bnrm <= self.tol * bnrm0:
                     continue  # Nothing new (up to the tolerance) is added by this vector
